@@ -393,6 +393,64 @@ def bool_table(expr, atom_texts):
     return out
 
 
+class _ParamSubst(ast.NodeTransformer):
+    def __init__(self, mapping):
+        self.mapping = mapping
+
+    def visit_Name(self, node):
+        if isinstance(node.ctx, ast.Load) and node.id in self.mapping:
+            import copy
+
+            return copy.deepcopy(self.mapping[node.id])
+        return node
+
+
+def inline_simple_calls(repo, func, node=None, depth=2):
+    """Deep copy of `node` (default: the function's AST) in which every call of a program function whose body is a
+    single `return <expr>` (after an optional docstring) is replaced by that expression with the parameters replaced
+    by the argument expressions.  Arguments are substituted syntactically, so this is used for *analysis* of pure
+    look-up helpers only (an argument evaluated twice makes no difference to the facts the rules extract)."""
+    import copy
+
+    root = copy.deepcopy(node if node is not None else func.node)
+
+    class Inl(ast.NodeTransformer):
+        def visit_Call(self, call):
+            self.generic_visit(call)
+            callee = repo.resolve_call(func, call)
+            if callee is None or callee is func:
+                return call
+            body = [st for st in callee.node.body if not (isinstance(st, ast.Expr) and isinstance(st.value, ast.Constant))]
+            if len(body) != 1 or not isinstance(body[0], ast.Return) or body[0].value is None:
+                return call
+            params = callee.params[1:] if (callee.cls and isinstance(call.func, ast.Attribute)) else callee.params
+            if any(isinstance(a, ast.Starred) for a in call.args) or len(call.args) > len(params):
+                return call
+            mapping = {p_: a for p_, a in zip(params, call.args)}
+            for k in call.keywords:
+                if k.arg is None:
+                    return call
+                mapping[k.arg] = k.value
+            defaults = callee.node.args.defaults
+            for p_, d in zip(reversed(callee.node.args.args), reversed(defaults)):
+                mapping.setdefault(p_.arg, d)
+            if any(p_ not in mapping for p_ in params):
+                return call
+            expr = _ParamSubst(mapping).visit(copy.deepcopy(body[0].value))
+            return ast.copy_location(expr, call)
+
+    for _ in range(depth):
+        root = Inl().visit(root)
+    ast.fix_missing_locations(root)
+    return root
+
+
+def inlined(repo, func):
+    """A Func whose node has the simple look-up helpers inlined (same module, same qualified name)."""
+    f2 = Func(func.module, func.qualname, inline_simple_calls(repo, func), func.cls, func.parent)
+    return f2
+
+
 def parents_map(root):
     pm = {}
     for n in ast.walk(root):
